@@ -147,7 +147,14 @@ def run_ops(manager, ops):
                 lv.model[idx][1].append(item)
                 mutated(lv)
                 if ret is not lv.real:
-                    probs.append(("add:does-not-return-the-same-array", {"step": step}))
+                    # "Return the bins after the addition": another object is acceptable if it shows the bins after the addition
+                    try:
+                        rs, rl = observe(manager, binner, ret)
+                        same = rs == [m[0] for m in lv.model] and (manager == "sums" or rl == [m[1] for m in lv.model])
+                    except Exception:
+                        same = False
+                    if not same:
+                        probs.append(("add:returned-array-does-not-show-the-bins-after-the-addition", {"step": step}))
             elif kind == "copy":
                 if len(lives) >= MAX_LIVE:
                     stats["skipped"] += 1
